@@ -922,6 +922,20 @@ def run(ctx: vlib.Ctx) -> None:
                 ctx.broke("T", "toggle table", f"attribute {n} has no toggle experiment and no reason for being excluded")
             if n in NOT_TOGGLED and c not in ("inert", "key"):
                 ctx.broke("T", "toggle table", f"attribute {n} is never toggled but classified {c}")
+        # reads of options inside the analysis modules, per class (the Coq theorem every_option_read_is_keyed_or_classified
+        # decides; this is the readable report)
+        per: dict[str, int] = {}
+        bad_reads = []
+        for a, fs in tab["analysis_reads"]:
+            c = classes.get(a, {}).get("class", "unclassified")
+            per[c] = per.get(c, 0) + 1
+            rev = set(classes.get(a, {}).get("analysis_reads_reviewed", []))
+            if c not in ("key", "dir") and not (c == "inert" and set(fs) <= rev):
+                bad_reads.append((a, c, sorted(set(fs) - rev)))
+        ctx.cov["analysis_reads"] = {"attributes_read": len(tab["analysis_reads"]), "per_class": per,
+                                     "read_sites": sum(len(fs) for _, fs in tab["analysis_reads"])}
+        if bad_reads:
+            ctx.broke("T", "analysis reads", f"options read in analysis modules that are neither keyed nor reviewed: {bad_reads}")
         ctx.cov["attributes"] = len(names)
         ctx.cov["classes"] = {c: sum(1 for v in classes.values() if v["class"] == c) for c in ("key", "dir", "post_load", "inert", "finding")}
     except Exception as e:  # noqa
